@@ -137,7 +137,7 @@ def segments(ctx, n):
 
 
 # ------------------------------------------------------------------ clouds
-def gen_cloud_pair(rng, cls):
+def gen_cloud_pair(rng, cls, scale=1.0):
     nu, ns = int(rng.integers(0, 60)), int(rng.integers(0, 60))
     if cls == "random":
         pu, ps = rng.uniform(-1, 1, (nu, 2)), rng.uniform(-1, 1, (ns, 2))
@@ -162,6 +162,9 @@ def gen_cloud_pair(rng, cls):
         ps = np.column_stack([0.3 * np.cos(4 * ts + rng.uniform(0, 6)), ts * 2 - 1])
     else:
         raise ValueError(cls)
+    # section geometry at the scale of real use (default search radius 1e-4): squared distances down to 1e-16
+    pu = np.asarray(pu, dtype=float) * scale
+    ps = np.asarray(ps, dtype=float) * scale
     Xu = np.zeros((len(pu), 6))
     Xs = np.zeros((len(ps), 6))
     a, b = rng.choice(3, size=2, replace=False)
@@ -188,8 +191,9 @@ def clouds(ctx, n):
         if not ctx.mine(it):
             continue
         cls = CLOUD_CLASSES[it % len(CLOUD_CLASSES)]
-        pu, ps, Xu, Xs = gen_cloud_pair(rng, cls)
-        eps = float(10.0 ** rng.uniform(-3, 0.3))
+        scale = float(10.0 ** -int(rng.choice([0, 0, 2, 4, 6])))
+        pu, ps, Xu, Xs = gen_cloud_pair(rng, cls, scale)
+        eps = float(10.0 ** rng.uniform(-3, 0.3)) * scale
         dv_tol = float(10.0 ** rng.uniform(-9, 1))
         bal_tol = float(dv_tol * 10.0 ** rng.uniform(-4, 0.5))
         tiu = rng.integers(0, 5, len(pu)) if rng.random() < 0.5 else None
@@ -198,7 +202,7 @@ def clouds(ctx, n):
                                         traj_indices_u=tiu, traj_indices_s=tis, eps=eps, dv_tol=dv_tol, bal_tol=bal_tol)
 
         def wit():
-            return {"class": cls, "nu": len(pu), "ns": len(ps), "eps": eps, "dv_tol": dv_tol, "bal_tol": bal_tol,
+            return {"class": cls, "scale": scale, "nu": len(pu), "ns": len(ps), "eps": eps, "dv_tol": dv_tol, "bal_tol": bal_tol,
                     "pu": pu, "ps": ps, "seed": ctx.seed, "index": it}
         try:
             res = be.run(req).results
